@@ -11,7 +11,7 @@ PKG = "internal/integration_tests"
 PKGNAME = "integration_tests"
 ENV_FILES = {"zz_verif_c01env_test.go": "c01/env_test.go"}
 PARAMS_NAME = "ParamsC01"
-HEADER = ("From Hy Require Import lib.Harness gen.ParamsC01 model.C01_ServerAuth corr.C01_Corr.\n"
+HEADER = ("From Hy Require Import gen.ParamsC01 model.C01_ServerAuth corr.C01_Corr.\n"
           "Local Open Scope N_scope.\n")
 UNKNOWN_CONN = 99
 
@@ -57,10 +57,12 @@ def defs_for(texts):
     return "".join("let %s : %s := %s in\n" % (n, byname[n][1], byname[n][2]) for n in sorted(need, key=lambda n: byname[n][0]))
 
 
-def eval_cases(ctx, prefix, header, terms, shards=5, timeout=900):
+def eval_cases(ctx, prefix, header, terms, shards=4, timeout=900):
     """like common.eval_cases, with the interned definitions each shard needs put in front."""
     if not terms:
         return True, [], ""
+    if len(terms) > 60:
+        shards = 12
     ns = max(1, min(shards, len(terms)))
     groups = [terms[si::ns] for si in range(ns)]
     texts = [header + "\nDefinition cases : list case :=\n" + defs_for(g) + "[\n" + ";\n".join(g) + "\n].\n" + common.CASES_TAIL for g in groups]
